@@ -62,6 +62,13 @@ CLAIMS = {
             '--no-default-features build of the harness on the corpora of C01/C03/C06/C13-C15 (JIT from caller-supplied executable memory) and requiring '
             'identical transcripts.',
             'Helpers that exist only with std are outside the comparison.'),
+    'C11': ('proof', 'Theorem C11_bounds_check: the IR that cranelift.rs builds in insert_bounds_check (regenerated into Coq on every run, over a value semantics of '
+            'iconst/iadd/icmp/band/bor/trapz) lets execution continue iff the access [a, a+size), a = (base+offset) mod 2^64, does not wrap and lies entirely in the '
+            'stack, the packet (when present) or the metadata buffer (when present) -- for every base, offset, width and region layout; C11_regions: the region '
+            'variables are the slices passed and the 512-byte slot; C11_check_precedes_access: reg_load/reg_store/reg_atomic_add check first, with the type, base '
+            'and offset of the access they perform. Compiled code is run in a child against guard pages on the address grid and compared with the interpreter\'s '
+            'decision (C02 theorem) and with the IR model. PARTIAL in that Cranelift\'s code generation is trusted (exercised, not verified).',
+            'Cranelift IR semantics modelled by hand (ClirSem.v); IR -> machine code trusted.'),
     'C13': ('proof', 'Theorems C13_instruction / C13_program: for every mnemonic string and every operand list with 64-bit operand values, the instruction map '
             '(regenerated by partial evaluation of make_instruction_map), encode, insn and the lddw second slot regenerated from assembler.rs give exactly '
             'the slots of the independently written specification AsmSpec.denote (table by ISA numbering, shapes, range limits, lddw split, unused fields '
